@@ -125,3 +125,59 @@ def check_function(ctx, fi, rule="ITER-ONCE"):
         else:
             ctx.hold(rule, site, fi, f"`{p}` is consumed at most once on every path")
     return n_inst
+
+
+def check_local_iterators(ctx, fi, rule="ITER-ONCE"):
+    """a local bound once to a one-shot iterator (`zip`, `map`, `filter`, `iter`, `enumerate`, `reversed`, a generator expression, or
+    the package's own `items()` methods, which return `zip` objects) is consumed at most once on every path: a second loop over it
+    sees an exhausted iterator and silently does nothing"""
+    from ..astutil import stmt_index
+
+    fv = view(ctx.model, fi)
+    si = stmt_index(fv)
+    ONE_SHOT = {"zip", "map", "filter", "iter", "enumerate", "reversed"}
+    stores = {}
+    for n in ast.walk(fi.node):
+        if isinstance(n, ast.Name) and isinstance(n.ctx, ast.Store):
+            stores[n.id] = stores.get(n.id, 0) + 1
+    n_inst = 0
+    for st in fv.statements():
+        if not (isinstance(st, ast.Assign) and len(st.targets) == 1 and isinstance(st.targets[0], ast.Name)):
+            continue
+        x = st.targets[0].id
+        v = st.value
+        one_shot = isinstance(v, ast.GeneratorExp) or (isinstance(v, ast.Call) and ((isinstance(v.func, ast.Name) and v.func.id in ONE_SHOT)
+                                                                                  or (isinstance(v.func, ast.Attribute) and v.func.attr == "items" and U(v.func.value) == "self")))
+        if not one_shot or stores.get(x) != 1:
+            continue
+        uses = []
+        for s2 in fv.statements():
+            if s2 is st:
+                continue
+            roots = [s2.iter] if isinstance(s2, (ast.For,)) else ([s2.test] if isinstance(s2, (ast.If, ast.While)) else ([] if isinstance(s2, (ast.With, ast.Try, ast.FunctionDef)) else [s2]))
+            if any(_uses(r, x) for r in roots):
+                uses.append(s2)
+        n_inst += 1
+        bad = None
+        for a in uses:
+            na = fv.node_of(a)
+            if na is None:
+                continue
+            seen, work = set(), [m for m, lab in na.succ if lab != "exc"]
+            while work:
+                y = work.pop()
+                if id(y) in seen:
+                    continue
+                seen.add(id(y))
+                work.extend(z for z, lab in y.succ if lab != "exc")
+            for b in uses:
+                nb = fv.node_of(b)
+                if b is not a and nb is not None and id(nb) in seen:
+                    bad = (a, b)
+                    break
+            if bad:
+                break
+        ctx.decide(bad is None, rule, f"{fi.qualname}:{x}", (fi, bad[1]) if bad else (fi, st), f"the one-shot iterator `{x}` is consumed at most once on every path",
+                   f"`{x} = {U(v)[:50]}` is a one-shot iterator and is consumed at line {getattr(bad[0], 'lineno', '?') if bad else ''} and again at line {getattr(bad[1], 'lineno', '?') if bad else ''}: "
+                   "the second consumer sees it exhausted and silently does nothing (e.g. no frame is written)")
+    return n_inst
